@@ -143,7 +143,11 @@ class ProcedureType(DataType):
 
     def __getstate__(self):
         _ignore = ('_procedure', )
-        return dict((k, v) for k, v in self.__dict__.items() if k not in _ignore)
+        state = dict((k, v) for k, v in self.__dict__.items() if k not in _ignore)
+        if self.is_function and state.get('_return_type') is None:
+            # The link to the procedure is dropped, so we need to retain its return type
+            state['_return_type'] = self.return_type
+        return state
 
     def __setstate__(self, s):
         self.__dict__.update(s)
